@@ -36,6 +36,8 @@ def run(check):
     check.run_rule('C12.R9', lambda c: rule_bound_copy_selection(c, 'C12.R9'))
     from ..rules_wrappers import rule_transparent_receiver
     check.run_rule('C12.R10', lambda c: rule_transparent_receiver(c, 'C12.R10', 'modifiers', ['_PokTranslator']))
+    from ..rules_modifiers import rule_prepare_admissibility
+    check.run_rule('C12.R1a', lambda c: rule_prepare_admissibility(c, 'C12.R1'))
     check.run_rule('C12.R2', lambda c: rule_call_table(c, 'C12.R2'))
     check.run_rule('C12.R3', lambda c: rule_forms(c, 'C12.R3'))
     from ..rules_modifiers import rule_descriptor_cache
